@@ -10,6 +10,8 @@ pub const LONG_POOL: &[&str] = &[
     "verbose", "v2", "x", "out", "output", "out-put", "in", "input", "no-color", "dry-run", "été",
     "a_b", "a__b", "num", "level", "opt", "flag", "file", "force", "fo", "mode", "name", "long1",
     "h2", "help-me", "version2", "quiet", "q1", "zeta", "eta", "theta", "io", "k8s",
+    // case variants of other entries
+    "Alpha", "OUT", "Force",
 ];
 pub const SHORT_POOL: &[char] = &[
     'a', 'b', 'c', 'd', 'e', 'f', 'g', 'i', 'j', 'k', 'l', 'm', 'n', 'o', 'p', 'q', 'r', 's', 't',
@@ -19,6 +21,8 @@ pub const SUB_POOL: &[&str] = &[
     "sync", "sy", "sub", "sub1", "sub-cmd", "sub_cmd", "s__b", "add", "remove", "rm", "list", "ls",
     "query", "push", "pull", "pu", "init", "in", "test", "te", "build", "bu", "été", "x", "cfg",
     "install", "inst", "run", "exec", "show", "status", "stat",
+    // case variants of other entries
+    "Sync", "LIST",
 ];
 
 #[derive(Default, Clone)]
@@ -276,7 +280,8 @@ fn wild_arg(rng: &mut Rng, id: String, used: &mut Used, o: &WildOpts, pos_index:
         a.hide_default_value = true;
     }
     if rng.chance(1, 6) {
-        a.heading = Some(rng.pick(&["Head A", "Head B", ""]).to_string());
+        // (also headings spelled like the built-in ones)
+        a.heading = Some(rng.pick(&["Head A", "Head B", "", "Options", "Arguments", "Commands"]).to_string());
     }
     if rng.chance(1, 8) {
         a.display_order = Some(rng.below(5));
@@ -478,6 +483,11 @@ pub fn wild_cmd(rng: &mut Rng, o: &WildOpts, depth_left: usize, name: String, in
                         s.long_flag_aliases.push((l2, rng.coin()));
                     }
                 }
+            }
+            // explicit display orders, drawn from a small range so that siblings collide (also
+            // with the generated `help`, which sits at 999)
+            if rng.chance(1, 6) {
+                s.display_order = Some(*rng.pick(&[0usize, 1, 2, 999]));
             }
             c.subs.push(s);
         }
